@@ -178,7 +178,10 @@ Definition mon_step (m : mon) (i : nat) (e : event) : mon :=
     | _, Some t' => if Nat.eqb t t' then set_open m (filter (fun p => negb (Nat.eqb (fst p) (gid (e_by e)))) (m_open m)) else m
     | _, None => m
     end
-  | KDrainSnapshot _ rs => set_drains m (m_drain_dl m) (nset (m_snap m) (gid (e_by e)) (map fst rs)) (m_dl_hit m) (m_cut m)
+  | KDrainSnapshot _ rs =>
+    (* upgraded connections are cut as soon as draining begins *)
+    set_drains m (m_drain_dl m) (nset (m_snap m) (gid (e_by e)) (map fst rs)) (m_dl_hit m)
+               (map fst (filter (fun rh => snd rh) rs) ++ m_cut m)
   | KDrainDeadline _ =>
     let g := gid (e_by e) in
     let early := match nget (m_drain_dl m) g with Some d => e_t e <? d | None => true end in
